@@ -104,3 +104,75 @@ Proof.
     + destruct (flush_writes_winv f (flush_order ms) w (ex_intro _ [] R)) as (w' & Hr & (fs & R') & _).
       rewrite Hr. destruct (drain_spec all_fixed w' fs None eq_refl R') as (w2 & Hd & _). rewrite Hd. reflexivity.
 Qed.
+
+(* ------------------------------------------------------------------ names of what a flush emits *)
+(* [b] is the rendering of the message of one of the metrics over a non-empty run of its values *)
+Definition from_metric (f : fcfg) (ms : list metric) (b : bytes) : Prop :=
+  exists m ch, In m ms /\ ch <> [] /\ b = render (expect (metric_cfg f m) (expected_op f m) ch).
+
+Lemma from_metric_weaken f m r b : from_metric f r b -> from_metric f (m :: r) b.
+Proof. intros (m' & ch & Hi & Hn & E). exists m', ch. split; [right; exact Hi|auto]. Qed.
+
+Lemma flush_writes_bodies f : forall ms w fs0,
+  Rep w fs0 -> max w = f_max f -> lp w = f_lp f ->
+  forallb (fun m => values_nonempty (expected_op f m)) ms = true ->
+  exists w' nbs, flush_writes f w ms = Ok w' /\ Rep w' (fs0 ++ nbs) /\ lp w' = f_lp f /\ Forall (from_metric f ms) nbs.
+Proof.
+  induction ms as [|m r IH]; intros w fs0 H M L Hne.
+  - exists w, []. rewrite app_nil_r. auto.
+  - cbn [forallb] in Hne. apply andb_true_iff in Hne as [Hne1 Hne2].
+    cbn [flush_writes]. destruct (skipped m) eqn:Sk.
+    + destruct (IH w fs0 H M L Hne2) as (w' & nbs & Hr & R & L' & F).
+      exists w', nbs. refine (conj Hr (conj R (conj L' _))).
+      eapply Forall_impl; [|exact F]. intros b. apply from_metric_weaken.
+    + set (c := metric_cfg f m). set (o := metric_op f m).
+      assert (Ec : c_env c = metric_env f m) by apply metric_cfg_env.
+      destruct (step_refines (metric_env f m) w fs0 o eq_refl H) as (w1 & Hs & M1 & L1 & R1).
+      rewrite Hs. rewrite M, L in *.
+      assert (Hw : match o with Drain _ => False | _ => True end) by apply metric_op_is_write.
+      assert (R1' : Rep w1 (fs0 ++ fst (awrite (c_env c) (c_max c) o))).
+      { rewrite Ec. unfold c at 1. cbn [metric_cfg c_max]. destruct o; [exact R1|exact R1|destruct Hw]. }
+      destruct (IH w1 _ R1' M1 L1 Hne2) as (w' & nbs & Hr & R & L' & F).
+      exists w', (fst (awrite (c_env c) (c_max c) o) ++ nbs). rewrite app_assoc.
+      refine (conj Hr (conj R (conj L' _))).
+      assert (Hne1' : values_nonempty o = true) by (unfold o; rewrite <- expected_op_is_metric_op; exact Hne1).
+      destruct (awrite_spec c o Hw Hne1') as (A & B & _).
+      apply Forall_app; split.
+      * rewrite A. apply Forall_forall. intros b Hb. apply in_map_iff in Hb as (ch & <- & Hch).
+        exists m, ch. split; [left; reflexivity|]. split; [rewrite Forall_forall in B; exact (B ch Hch)|].
+        rewrite expected_op_is_metric_op. reflexivity.
+      * eapply Forall_impl; [|exact F]. intros b. apply from_metric_weaken.
+Qed.
+
+Lemma expect_name f m ch :
+  m_name (expect (metric_cfg f m) (expected_op f m) ch) = e2e_name (f_prefix f) (metric_name m).
+Proof. destruct m; reflexivity. Qed.
+
+(* every payload an exporter emits in a flush is the frame of the message of one registered metric,
+   and the name in that message is the registered name behind the global prefix and a '.', unless
+   the registered name begins with the telemetry namespace, in which case it is the name itself *)
+Theorem e2e_name_is_prefixed f ms ps :
+  f_max f < two32 -> forallb (fun m => values_nonempty (expected_op f m)) ms = true ->
+  run_flush f ms = Some ps ->
+  forall p, In p ps ->
+  exists m ch, In m ms /\ ch <> [] /\
+    p = frame (f_lp f) (render (expect (metric_cfg f m) (expected_op f m) ch)) /\
+    m_name (expect (metric_cfg f m) (expected_op f m) ch) = e2e_name (f_prefix f) (metric_name m) /\
+    (wf_msg (expect (metric_cfg f m) (expected_op f m) ch) = true ->
+     exists M, parse_msg (render (expect (metric_cfg f m) (expected_op f m) ch)) = Some M /\
+               m_name M = e2e_name (f_prefix f) (metric_name m)).
+Proof.
+  intros Hm Hne. unfold run_flush.
+  destruct (new_ok (f_max f) (f_lp f) Hm) as (w & Hn & R & M & L). rewrite Hn.
+  assert (Hne' : forallb (fun m => values_nonempty (expected_op f m)) (flush_order ms) = true).
+  { rewrite forallb_forall in *. intros x Hx. apply Hne. unfold flush_order in Hx.
+    rewrite !in_app_iff, !filter_In in Hx. tauto. }
+  destruct (flush_writes_bodies f (flush_order ms) w [] R M L Hne') as (w' & nbs & Hr & R' & L' & F).
+  rewrite Hr. destruct (drain_spec all_fixed w' _ None eq_refl R') as (w2 & Hd & _). rewrite Hd.
+  intros [= <-] p Hp. cbn [app] in Hp. apply In_firstn_In in Hp. apply in_map_iff in Hp as (b & <- & Hb).
+  rewrite Forall_forall in F. destruct (F b Hb) as (m & ch & Hi & Hch & ->).
+  exists m, ch. rewrite L'.
+  split. { unfold flush_order in Hi. rewrite !in_app_iff, !filter_In in Hi. tauto. }
+  split; [exact Hch|]. split; [reflexivity|]. split; [apply expect_name|].
+  intros W. eexists. split; [apply parse_render; [exact W|rewrite expect_values; exact Hch]|apply expect_name].
+Qed.
